@@ -39,7 +39,11 @@ RULE = ("(base, overlay document, inputs) triples: overlay documents are generat
         "flow stream: referenced ValueFunctions are offered again, koreo re-prepares the function from its cached spec, "
         "the target is materialised again with equal inputs; function streams: leaves that call every koreo CEL extension "
         "function (flatten, overlay, *_ref, split*, strip, to_json, ...) on nested lists/maps/strings TAKEN FROM "
-        "inputs/locals/resource, at every level. "
+        "inputs/locals/resource, at every level; sharing: in half of the cases equal sub-maps/lists of base and inputs are the "
+        "same Python object, sub-maps are duplicated to other paths, and (alias stream) one map-valued expression fills 2-3 "
+        "paths of a template/overlay/ValueFunction return before overlays reach into one of them; identity stream: cached "
+        "templates that already carry apiConfig's identity, owned, 0-2 overlays; every ResourceFunction case ends with two "
+        "monitored whole reconciles (create path) for two owners. "
         "non-trivial = the overlay shares at least one key with the base or has >=2 leaves; distinct by content")
 ASSUMPTIONS = [
     "Python dicts have unique keys: bases, inputs and overlay documents are well-formed (wf / wf_doc) in every theorem",
@@ -1646,7 +1650,7 @@ def gen_cases(ctx: Ctx):
     yield from fixed_cases()
     yield from shape_cases(6 if ctx.quick() else 8)
     q = ctx.quick()
-    for _ in range(1500 if q else 20000):
+    for _ in range(1200 if q else 20000):
         yield g_ov_case(ctx.rng)
     for _ in range(500 if q else 6000):
         yield g_deep_case(ctx.rng)
@@ -1657,13 +1661,13 @@ def gen_cases(ctx: Ctx):
     for _ in range(200 if q else 2500):
         yield g_flow_case(ctx.rng)
     # alias stream: one computed map fills several paths, later overlays reach into one of them
-    for _ in range(400 if q else 5000):
+    for _ in range(300 if q else 4000):
         yield g_rf_case(ctx.rng, alias=True)
     # identity stream: cached templates on which the forced overlay is a no-op, few overlays, owned -> create path
-    for _ in range(200 if q else 2500):
+    for _ in range(150 if q else 2000):
         yield g_rf_case(ctx.rng, ident=True)
     # function streams: leaves that call koreo's CEL extension functions on values taken from inputs/locals/resource
-    for _ in range(500 if q else 6000):
+    for _ in range(400 if q else 6000):
         with fn_stream(0.45):
             c = g_ov_case(ctx.rng, fx=True)
         yield c
